@@ -39,8 +39,8 @@ META = {
     "level_text": ("partial (P-core): for every well-formed revision graph, uncommit(commit(s)) = s on tip, revno, tags, the "
                    "tree's parent list (pending merges in order) and files; multi-revision uncommit reaches the requested "
                    "left-hand ancestor with the right revno and re-records the merged parents (exact list proved); tag removal "
-                   "characterised by ancestry; bound/local handling. One clause is refuted (tree basis != branch tip after "
-                   "uncommitting everything over a merge) with its guarded version. Tied to the code by real commits/uncommits "
+                   "characterised by ancestry; bound/local handling. tags are dropped in bound branches and their masters too (after repair 495a382). "
+                   "One clause is refuted (tree basis != branch tip after uncommitting everything over a merge) with its guarded version. Tied to the code by real commits/uncommits "
                    "on the same graph value; dirstate, repository and commit internals are not modelled."),
     "level_note": ("Trusted: Coq kernel, vm_compute, the hand model's correspondence (bounded sampling), vcsgraph as modelled by "
                    "Lib/Dag. 2a format, standalone and bound local branches."),
@@ -158,6 +158,9 @@ def corpus():
     # the finding witness: uncommit everything over a merge
     out.append({"kind": "uncommit", "g": FIXED[1], "tip": 2, "tags": {}, "tp": [2], "master": None,
                 "k": 0, "keep_tags": False, "local": False})
+    # witness of the repaired finding C16-bound-tag-removal-lock-contention (commit 495a382): must pass now
+    out.append({"kind": "uncommit", "g": [[], [0]], "tip": 1, "tags": {"0": 1}, "tp": [1],
+                "master": {"tip": 1, "tags": {"0": 1}}, "k": 1, "keep_tags": False, "local": False})
     g = FIXED[0]
     for k in range(0, 5):
         for tp in ([5], [5, 6], None):
@@ -356,9 +359,12 @@ def impl(inp):
                          keep_tags=inp["keep_tags"], local=inp["local"])
             except BaseException as e:
                 name = type(e).__name__
-                if name == "PanicException" and "LockContention" in str(e):
-                    name = "LockContention"      # raised inside the Rust remove_tags, surfaces as a pyo3 panic
-                if name not in EXPECTED + ("LockContention",):
+                if name == "PanicException":
+                    # a Python exception under the Rust remove_tags surfaces as a pyo3 panic (a BaseException);
+                    # never expected any more (finding C16-bound-tag-removal-lock-contention, repaired): reported
+                    # as an observation so that the oracle can name the input instead of the run crashing
+                    name = "LockContention" if "LockContention" in str(e) else "PanicException"
+                if name not in EXPECTED + ("LockContention", "PanicException"):
                     raise
                 state1 = [_binfo(br), [idx(x) for x in wt.get_parent_ids()], _binfo(mb) if mb is not None else None]
                 return [Err(name), state0 == state1 and files0 == _disk(wt)]
@@ -531,6 +537,11 @@ def oracle(inp, obs):
     if dict(map(tuple, b[2])) != want_tags:
         return f"tags after uncommit {b[2]}, expected {sorted(want_tags.items())} (revisions only reachable from the old tip: {sorted(gone_revs)})"
     if m is not None:
+        # a tag name dropped from the branch is dropped from its master too (bound or local)
+        dropped = set() if inp["keep_tags"] else set(old) - set(want_tags)
+        want_mtags = {int(kk): v for kk, v in m["tags"].items() if int(kk) not in dropped}
+        if dict(map(tuple, mb[2])) != want_mtags:
+            return f"master tags after uncommit {mb[2]}, expected {sorted(want_mtags.items())} (names dropped from the branch: {sorted(dropped)})"
         if inp["local"]:
             if mb[:2] != [daglib.revno_of(g, m["tip"]), m["tip"]]:
                 return f"local=True moved the master to {mb[:2]}"
@@ -553,11 +564,6 @@ def _tags_to_drop(inp):
 
 def finding_matches(fid, inp, obs, why):
     inp = expand(inp)
-    if fid == "C16-bound-tag-removal-lock-contention":
-        # bound branch in step with its master, not local, not keep_tags, at least one tag to drop
-        m = inp.get("master")
-        return (inp["kind"] == "uncommit" and m is not None and not inp["local"] and not inp["keep_tags"]
-                and m["tip"] == inp["tip"] and bool(_tags_to_drop(inp)))
     if fid == "C16-basis-after-uncommit-to-null":
         # everything uncommitted (k = 0), with a tree, and some removed mainline revision is a merge
         # (or the tree already had pending merges): the first of them becomes the tree's basis
